@@ -17,9 +17,14 @@ declare -A CHECKS=(
   [Z-C17-refactor]="C17 C14"
   [Z-C18-refactor]="C18 C13 C14"
   [Z-C19-refactor]="C19 C15 C16"
+  [Y-C13-feature]="C13 C14 C16 C15 C18 C17"
+  [Y-C15-feature]="C15 C18 C13 C16 C14 C19 C17"
+  [Y-C16-feature]="C16 C14 C15"
+  [Y-C17-feature]="C17 C15 C14 C19"
+  [Y-C19-feature]="C19 C15 C16"
 )
 rc=0
-for id in $(ls benign | grep '\.diff$' | sed 's/\.diff$//'); do
+for id in $(ls benign | grep '\.diff$' | grep -v 'orig-tree' | sed 's/\.diff$//'); do
   for prop in ${CHECKS[$id]}; do
     out="$(tools/try_mutant.sh "$PWD/benign/$id.diff" "$prop" quick 2>&1)"
     code="$(echo "$out" | sed -n 's/^try_mutant: check .* exit=//p')"
